@@ -978,6 +978,43 @@ def spectrum_case(case):
                 t_ = fresh.bindown(wn.copy(), tau.copy())[1]
                 r.check(ref.same_numbers(out['binned_tau'], t_, exact=False, rtol=1e-12), 'b:binned-tau',
                         'b/binned_tau/%s' % cls)
+    # the per-source results stored next to the spectrum: each source's entry holds what model_contrib() computed
+    # for that source, each component's entry what model_full_contrib() computed for that component
+    if case.get('contribs', True):
+        from taurex.util.output import store_contributions
+        try:
+            sc = store_contributions(binner, m, output_size=OutputSize[size])
+            _, cd = m.model_contrib()
+            _, fd = m.model_full_contrib()
+        except Exception as e:
+            sc = None
+            r.check(False, 'b:contributions', 'b/contributions/raised/%s/%s' % (type(e).__name__, cls), exc=repr(e))
+        if sc is not None:
+            r.check(sorted(sc) == sorted(cd), 'b:contributions', 'b/contributions/names/%s' % cls, got=sorted(sc),
+                    want=sorted(cd))
+            for cname in sorted(cd):
+                if cname not in sc:
+                    continue
+                e_ = sc[cname]
+                r.check('native_spectrum' in e_ and ref.same_numbers(e_['native_spectrum'], np.asarray(cd[cname][0], float),
+                                                                      exact=False, rtol=1e-12),
+                        'b:contributions', 'b/contributions/source-spectrum/%s' % cls, source=cname)
+                if 'native_tau' in e_:
+                    r.check(ref.same_numbers(e_['native_tau'], np.asarray(cd[cname][1], float), exact=False, rtol=1e-12),
+                            'b:contributions', 'b/contributions/source-tau/%s' % cls, source=cname)
+                if bl != 'native' and 'binned_spectrum' in e_:
+                    fb_ = make_binner(bl, case['grid'])[0]
+                    r.check(ref.same_numbers(e_['binned_spectrum'], fb_.bindown(wn.copy(), np.asarray(cd[cname][0], float))[1],
+                                             exact=False, rtol=1e-12), 'b:contributions',
+                            'b/contributions/source-binned/%s' % cls, source=cname)
+                for comp in fd.get(cname, []):
+                    ce = e_.get(comp[0])
+                    if not r.check(isinstance(ce, dict) and 'native_spectrum' in ce, 'b:contributions',
+                                   'b/contributions/component-missing/%s' % cls, source=cname, component=comp[0]):
+                        continue
+                    r.check(ref.same_numbers(ce['native_spectrum'], np.asarray(comp[1], float), exact=False, rtol=1e-12),
+                            'b:contributions', 'b/contributions/component-spectrum/%s' % cls, source=cname,
+                            component=comp[0])
     # the dictionary goes to a file and comes back unchanged
     fn = os.path.join(fx.fresh_dir('c16b'), 's.h5')
     snapshot = dict((k, np.array(v, copy=True)) for k, v in out.items())
